@@ -421,6 +421,29 @@ class Session:
             self.unwind()
             self._restore_cfg()
 
+    def _copied_root(self, step):
+        """A second object on the resource obtained by copy.deepcopy() / a pickle round trip of an existing root
+        object: it must be an independent, fully working handle on the same resource."""
+        import copy as _copy
+        import pickle
+
+        src = step["src"]
+        if src not in self.objs or src not in self.model.handles or not self.model.handles[src].is_root:
+            return
+        try:
+            if step["via"] == "deepcopy":
+                obj = _copy.deepcopy(self.objs[src])
+            else:
+                obj = pickle.loads(pickle.dumps(self.objs[src]))
+        except Exception as e:  # noqa: BLE001
+            self.viol("copy_failed", f"{step['via']} of a root collection raised {type(e).__name__}: {e}",
+                      op=step["via"])
+        if obj is self.objs[src] or type(obj) is not type(self.objs[src]):
+            self.viol("copy_failed", f"{step['via']} returned {type(obj).__name__} / the object itself", op=step["via"])
+        self.objs[step["new_root"]] = obj
+        self.model.add_root(step["new_root"], self.model.handles[src].res)
+        self.counters["copied_roots"] = self.counters.get("copied_roots", 0) + 1
+
     def _new_root(self, hid, res):
         data = (self.case.get("root_data") or {}).get(str(hid))
         kw = {"data": model.norm(model.decode(data))} if data is not None else {}
@@ -465,6 +488,8 @@ class Session:
                     self.viol("family", f"child at {step.get('path')} is {type(self.objs[step['retain']]).__name__}, "
                               f"expected {want_cls.__name__}", op="retain")
             return
+        if "new_root" in step and "via" in step:
+            return self._copied_root(step)
         if "new_root" in step:
             return self._new_root(step["new_root"], step["res"])
         if "outside" in step:
